@@ -483,7 +483,7 @@ class C15(Check):
     }
     required_probes = [
         "in_place_kernel_launch", "launch_on_strided_view", "call_with_overlapping_array_arguments", "more_threads_than_outer_iterations", "policy_permuted", "policy_static", "policy_dynamic",
-        "executor_fidelity_checked_against_compiled_kernel", "thread_differential_ir", "thread_differential_compiled", "repeated_identical_requests", "marker_by_marker_reference", "production_sized_grid_compiled_alias_probe", "target_gen", "target_ns2d", "target_ns3d", "target_passive", "target_solver", "target_interaction", "spreading_permuted_prange",
+        "executor_fidelity_checked_against_compiled_kernel", "thread_differential_ir", "thread_differential_compiled", "repeated_identical_requests", "marker_by_marker_reference", "production_sized_grid_compiled_alias_probe", "blocking_probe_on_production_sized_array", "target_gen", "target_ns2d", "target_ns3d", "target_passive", "target_solver", "target_interaction", "spreading_permuted_prange",
     ]
     tiers = {
         "quick": {"runs": 800, "batch": 6, "timeout": 900},
@@ -524,6 +524,7 @@ class C15(Check):
             name, dim, o = combos()[gi]
             p.update({"gen": name, "dim": dim, "opts": o, "shape": list(rng.choice(SHAPES[dim])), "view": rng.choice(["contig", "contig", "padded"]), "repeats": 3})
             p["fidelity"] = (gi % 8 == run % 8) if run < n_gen else rng.random() < 0.15
+            p["blocking_probe"] = bool(o["num_threads"]) and o["precision"] == "double" and not o.get("fixed") and o.get("filter_order", 1) == 1 and o.get("width", 2) == 2 and (run < n_gen or rng.random() < 0.2)
             p["precision"] = o["precision"]
         elif target in ("ns2d", "ns3d"):
             dim = 2 if target == "ns2d" else 3
@@ -664,9 +665,107 @@ class C15(Check):
             for th in thunks:
                 th()
         res.probe("kernels_built", len(new))
+        if p.get("blocking_probe") and not res.violations:
+            self._blocking_probe(wrapper, dim, real_t, p, res)
         if p.get("fidelity") and not res.violations:
             # (a kernel with a hazard legitimately differs between the sequential executor and a threaded build)
             self._fidelity(new, dim, shape, real_t, p, res)
+
+    def _blocking_probe(self, wrapper, dim, real_t, p, res):
+        """Blocking independence at wrapper level (compiled kernels, production-sized arrays).
+
+        A stencil wrapper must give, on the interior of a block cut out of a large array (with a halo),
+        the same values as on the large array itself: however a wrapper splits its index space into
+        launches, slabs or tiles, no cell may be updated from values another cell's update wrote.
+        Size-gated "cache blocking" paths only exist above some working-set size, hence the large array."""
+        from .. import seams
+
+        big = (1536, 1472) if dim == 2 else (176, 128, 120)
+        halo, blk = 8, (64 if dim == 2 else 40)
+        saved = (irsim.SimKernel.runtime, seams.kernel_factory, _alias["enabled"])
+        irsim.SimKernel.runtime, seams.kernel_factory, _alias["enabled"] = None, None, False
+        try:
+            try:
+                w_c = build_generator(p["gen"], dim, dict(p["opts"], fixed=False), big)
+            except Exception:  # noqa: BLE001
+                return
+            inner = w_c.wrapper if isinstance(w_c, AliasProbe) else w_c
+            try:
+                thunk_args = self._probe_args(inner, dim, big, real_t, p["sub"])
+            except Exception:  # noqa: BLE001  (wrappers tied to generation-time buffers of another shape, etc.)
+                return
+            if thunk_args is None:
+                return
+            kw_big = thunk_args
+            lo = [int(n // 2) - blk // 2 - halo for n in big]
+            sl_halo = tuple(slice(a, a + blk + 2 * halo) for a in lo)
+            kw_blk = {}
+            for k, v in kw_big.items():
+                if isinstance(v, np.ndarray):
+                    idx = sl_halo if v.ndim == dim else (slice(None), *sl_halo)
+                    kw_blk[k] = np.ascontiguousarray(v[idx])
+                else:
+                    kw_blk[k] = v
+            with np.errstate(all="ignore"):
+                inner(**kw_blk)
+                inner(**kw_big)
+            eps = float(np.finfo(real_t).eps)
+            core = tuple(slice(halo, halo + blk) for _ in range(dim))
+            for k, v in kw_big.items():
+                if not isinstance(v, np.ndarray):
+                    continue
+                idx = sl_halo if v.ndim == dim else (slice(None), *sl_halo)
+                cidx = core if v.ndim == dim else (slice(None), *core)
+                a = np.asarray(v[idx][cidx], dtype=np.float64)
+                b = np.asarray(kw_blk[k][cidx], dtype=np.float64)
+                fin = np.isfinite(a) & np.isfinite(b)
+                tol = 256 * eps * np.maximum(1.0, np.abs(b))
+                if not np.all((np.abs(a - b) <= tol)[fin]):
+                    res.violation(
+                        "blocking_dependence",
+                        {"gen": p["gen"], "param": k},
+                        f"{p['gen']} {p['opts']}: on a {big} array the values of '{k}' inside a {blk}-cell block differ from the same wrapper applied to that block cut out with a halo (max dev {float(np.max(np.abs(a - b)[fin])):.3e}): the result depends on how the index space is split",
+                    )
+                    break
+            res.probe("blocking_probe_on_production_sized_array")
+        finally:
+            irsim.SimKernel.runtime, seams.kernel_factory, _alias["enabled"] = saved
+
+    @staticmethod
+    def _probe_args(wrapper, dim, shape, real_t, sub):
+        """Keyword arguments for one call of a wrapper / bare kernel on arrays of `shape`."""
+        g = prng.np_rng(sub, "blocking")
+        if hasattr(wrapper, "parameters") and hasattr(wrapper, "kernel"):
+            # compiled bare kernel: fields by name
+            kw = {}
+            for prm in wrapper.kernel.parameters:
+                if prm.is_field_pointer:
+                    fld = prm.fields[0]
+                    vec = fld.spatial_dimensions + fld.index_dimensions == dim + 1
+                    kw[fld.name] = g.standard_normal((dim, *shape) if vec else shape).astype(real_t)
+                elif not prm.is_field_parameter:
+                    kw[prm.name] = float(g.uniform(0.05, 0.3))
+            return kw
+        sig = inspect.signature(wrapper)
+        arr_names, tup_names, sc_names = [], [], []
+        for n in sig.parameters:
+            ann = str(sig.parameters[n].annotation)
+            (arr_names if "ndarray" in ann else tup_names if ("tuple" in ann or n in ("fixed_vals", "penalty_val")) else sc_names).append(n)
+        small = tuple(12 for _ in range(dim))
+        for assign in itertools.product([False, True], repeat=len(arr_names)):
+            trial = {n: np.zeros((dim, *small) if vec else small, dtype=real_t) for n, vec in zip(arr_names, assign, strict=False)}
+            trial.update({n: tuple(0.1 for _ in range(dim)) for n in tup_names})
+            trial.update({n: 0.1 for n in sc_names})
+            try:
+                with np.errstate(all="ignore"):
+                    wrapper(**trial)
+            except Exception:  # noqa: BLE001
+                continue
+            kw = {n: g.standard_normal((dim, *shape) if vec else shape).astype(real_t) for n, vec in zip(arr_names, assign, strict=False)}
+            kw.update({n: tuple(float(g.uniform(0.05, 0.3)) for _ in range(dim)) for n in tup_names})
+            kw.update({n: float(g.uniform(0.05, 0.3)) for n in sc_names})
+            return kw
+        return None
 
     def _fidelity(self, kernels, dim, shape, real_t, p, res):
         """Executor fidelity self-test (not a property oracle): the simulated kernel, run
@@ -921,7 +1020,7 @@ class C15(Check):
         return []
 
     def simplify(self, program):
-        for key, val in (("thread_diff", None), ("repeat_identical", 0), ("steps", 1), ("queries", False), ("body", False), ("filter", None), ("free_stream", False), ("zone", 0), ("poisson", "greens"), ("view", "contig"), ("repeats", 1), ("evals", 1)):
+        for key, val in (("blocking_probe", False), ("fidelity", False), ("thread_diff", None), ("repeat_identical", 0), ("steps", 1), ("queries", False), ("body", False), ("filter", None), ("free_stream", False), ("zone", 0), ("poisson", "greens"), ("view", "contig"), ("repeats", 1), ("evals", 1)):
             if key in program and program[key] != val and not (key == "view" and program["target"] == "solver"):
                 c = copy.deepcopy(program)
                 c[key] = val
